@@ -122,7 +122,8 @@ def gen(rng, idx, tier, seed):
         return {'mode': 'program', 'file': fs,
                 'prog_seed': int(rng.integers(1 << 30)),
                 'nops': int(rng.integers(1, 5)),
-                'fn': bool(idx % 3 == 0 and 'core' in fs)}
+                'fn': bool(idx % 3 == 0 and 'core' in fs),
+                'disk': bool(idx % 5 == 1)}
     idx -= NPROG[tier]
     if idx < NQUERY[tier]:
         kind = ['cf', 'cf', 'ioapi', 'griddesc0', 'cf', 'ioapi635'][idx % 6]
@@ -233,10 +234,22 @@ def sentinel_write(out):
 
 
 def run_program(spec, res):
+    with harness.casedir() as d, harness.handles() as h:
+        run_program_in(spec, res, d, h)
+
+
+def run_program_in(spec, res, d, h):
     if 'ioapi' in spec['file']:
         f = gen_ioapi.build(spec['file']['ioapi'])
     else:
         f = gen_core.build(spec['file']['core'])
+    if spec.get('disk'):
+        # the receiver is a file on disk (saved, opened again)
+        g = harness.to_disk(f, d, h, fmt='ioapi' if 'ioapi' in spec['file']
+                            else 'netcdf')
+        if g is not None:
+            f = g
+            res.facet('source:disk')
     trace = []
 
     def on_step(phase, st, pre):
